@@ -497,6 +497,14 @@ impl MdkSqliteStorage {
         let result = (|| -> Result<(), Error> {
             #[cfg(feature = "verif-hooks")]
             crate::verif::tick("snapshot:begin");
+            // Re-taking a snapshot under an existing name replaces it (as the memory backend
+            // does); without this the inserts below hit the primary key of the old rows.
+            conn.execute(
+                "DELETE FROM group_state_snapshots WHERE snapshot_name = ? AND group_id = ?",
+                rusqlite::params![name, group_id_bytes],
+            )
+            .map_err(|e| Error::Database(e.to_string()))?;
+
             // Helper to insert snapshot rows
             let mut insert_stmt = conn
                 .prepare_cached(
